@@ -1,19 +1,22 @@
 (* C07: the dense (two-level perfect hash) dispatcher equals spec_dispatch; word-level lemmas. *)
 From Coq Require Import ZArith List Bool Lia Permutation Sorted.
-From Verif Require Import Base.Word256 C07.Jumptable C07.JumptableProofs C07.Dispatch C07.DispatchProofs.
+From Verif Require Import Base.Word256 C07.GenConsts C07.Jumptable C07.JumptableProofs C07.Dispatch C07.DispatchProofs.
 Import ListNotations.
 Open Scope Z_scope.
 Ltac Zify.zify_post_hook ::= Z.to_euclidean_division_equations.
 
 (* ---------- EVM arithmetic = Python arithmetic on the ranges that occur ---------- *)
 (* ((method_id * magic) >> 24) % size computed with 256-bit wrap-around mul equals the unbounded computation *)
+Lemma bits_magic_range : 0 <= BITS_MAGIC < 256.
+Proof. unfold BITS_MAGIC, GenConsts.g_BITS_MAGIC. lia. Qed.
+
 Lemma image_no_overflow x m n :
   0 <= x < 2 ^ 32 -> 0 <= m < 2 ^ 16 -> 0 < n ->
   w_mod (w_shr BITS_MAGIC (w_mul m x)) n = image1 n m x.
 Proof.
-  intros Hx Hm Hn. unfold image1, w_mod, w_shr, w_mul, BITS_MAGIC.
+  intros Hx Hm Hn. unfold image1, w_mod, w_shr, w_mul. pose proof bits_magic_range as Hb.
   assert (Hn0 : n =? 0 = false) by (apply Z.eqb_neq; lia). rewrite Hn0.
-  change (24 <? 256) with true. cbv iota.
+  destruct (BITS_MAGIC <? 256) eqn:Eb; [|apply Z.ltb_ge in Eb; lia].
   assert (Hp : 0 <= m * x < 2 ^ 48).
   { change (2 ^ 48) with (2 ^ 16 * 2 ^ 32). split; [apply Z.mul_nonneg_nonneg; lia|].
     apply Z.mul_lt_mono_nonneg; lia. }
